@@ -41,7 +41,7 @@ def check_case(case, ctx):
         ctx.case(case, False)
         return
     p, rx = built
-    texts = pat.subject_texts(case['tree'], case['tseed'], case.get('xt', ()))
+    texts = pat.subject_texts(case['tree'], case['tseed'], case.get('xt', ()), big=case.get('big', 0))
     model_compiled = False
     attr = '_Pregex__compiled'
     has_attr = hasattr(p, attr)
@@ -122,6 +122,7 @@ def strategy(spec, ctx):
     return st.fixed_dictionaries({
         'tree': dsl.tree_strategy(feats, max_leaves=5),
         'tseed': st.integers(0, 2 ** 16),
+        'big': st.sampled_from([0, 0, 0, 0, 0, 70, 300, 3000]),
         'ops': st.one_of(st.lists(op, min_size=4, max_size=30), st.lists(op, min_size=4, max_size=30), st.lists(op, min_size=30, max_size=80)),
         'xt': st.lists(st.text(st.sampled_from(list('ab \n\n.1-_Aé')), max_size=12), max_size=2),
     })
